@@ -158,6 +158,10 @@ func stdSP(i int) *spsim.SPDesc {
 
 // register adds the SP to the world.
 func regSP(w *sim.World, d *spsim.SPDesc, appID string) (*fxSP, error) {
+	if d.Decor == 0 && len(d.EntityID)%3 == 0 {
+		// a third of all registered documents carries the parts that say nothing about the role's endpoints and keys
+		d.Decor = 1 + (len(d.EntityID)+len(d.ACS)+len(d.SLO))%15
+	}
 	if _, err := w.AddSP(appID, d.XML()); err != nil {
 		return nil, err
 	}
